@@ -516,7 +516,8 @@ class digest(FieldType):
 
 class uri(string, FieldType):
     def __init__(self, value):
-        self._parsed = urlparse(value)
+        # Parse the text this value holds: ``value`` may be bytes, which string.__new__ decoded with surrogate escapes
+        self._parsed = urlparse(str(self))
 
     @staticmethod
     def normalize(path):
